@@ -261,6 +261,48 @@ func runC40(c *core.Ctx) {
 				}
 			}
 		}
+		if leading == nil {
+			// … or created here and filled by a same-package helper it is handed to (`markLeading(set, cfg.Proposers, c)`)
+			for _, ci := range ir.Calls(fn, nil) {
+				h := ci.Common().StaticCallee()
+				if h == nil || h == fn || h.Pkg != fn.Pkg || len(h.Blocks) == 0 || leading != nil {
+					continue
+				}
+				for ai, a := range ci.Common().Args {
+					mk, isMk := ir.Strip(a).(*ssa.MakeMap)
+					if !isMk || ssa.Value(mk) == selected || ai >= len(h.Params) {
+						continue
+					}
+					unbind := ir.BindParams(h, ci.Common().Args)
+					nFill := 0
+					for _, hb := range h.Blocks {
+						for _, hin := range hb.Instrs {
+							x, isMu := hin.(*ssa.MapUpdate)
+							if !isMu || x.Map != ssa.Value(h.Params[ai]) {
+								continue
+							}
+							nFill++
+							okLead := false
+							if ld, ok := ir.Strip(x.Key).(*ssa.UnOp); ok {
+								if ia, ok := ld.X.(*ssa.IndexAddr); ok {
+									if bb, f, okf := fieldLoad(ia.X); okf && f == "Proposers" && ir.Strip(bb) == ssa.Value(cfgP) {
+										okLead = true
+									}
+								}
+							}
+							c.Decide(okLead, "C40.select", fn, "the excluded set is filled from cfg.Proposers only", c.P.Rel(x.Pos()), "in helper "+h.Name())
+						}
+					}
+					if nFill > 0 {
+						leading, leadHost, leadMap = mk, h, h.Params[ai]
+						c.Attribute(h, fn)
+						defer unbind()
+					} else {
+						unbind()
+					}
+				}
+			}
+		}
 		if selected == nil || leading == nil {
 			c.Broken("C40.select", fn, "already-selected set and leading-proposer set", c.P.Rel(fn.Pos()), "not found")
 			return
@@ -269,6 +311,10 @@ func runC40(c *core.Ctx) {
 		opt := &eng.Opt{Start: draw}
 		miss := func(m ssa.Value, name string) eng.NamedGuard {
 			return eng.NamedGuard{Name: name, G: func(cd ir.Cond) (bool, bool) {
+				// plain lookup `set[id]` of a set that only ever stores true: true means present
+				if lk, isLk := cd.V.(*ssa.Lookup); isLk && !lk.CommaOk && lk.X == m && ir.Strip(lk.Index) == ssa.Value(draw) && c40OnlyTrueStored(fn, m) {
+					return true, false
+				}
 				ex, ok := cd.V.(*ssa.Extract)
 				if !ok || ex.Index != 1 {
 					return false, false
@@ -451,4 +497,34 @@ func runC40(c *core.Ctx) {
 		c.Decide(len(bad) == 0, "C40.deterministic", "selection functions", sprintf("no clock/random/environment/map-order dependence in the %d functions reachable from the selection", len(fns)), "", strings.Join(bad, "; "))
 		c.Floor("functions reachable from the selection", len(fns), 4)
 	}
+}
+
+// c40OnlyTrueStored: every update of the set m visible in fn (and in same-package helpers m is handed to)
+// stores the constant true, so a plain lookup m[k] answers membership.
+func c40OnlyTrueStored(fn *ssa.Function, m ssa.Value) bool {
+	ok := true
+	scan := func(f *ssa.Function, mv ssa.Value) {
+		for _, b := range f.Blocks {
+			for _, in := range b.Instrs {
+				if mu, isMu := in.(*ssa.MapUpdate); isMu && mu.Map == mv {
+					if k, isK := ir.ConstBool(mu.Value); !isK || !k {
+						ok = false
+					}
+				}
+			}
+		}
+	}
+	scan(fn, m)
+	for _, ci := range ir.Calls(fn, nil) {
+		h := ci.Common().StaticCallee()
+		if h == nil || h.Pkg != fn.Pkg || len(h.Blocks) == 0 {
+			continue
+		}
+		for ai, a := range ci.Common().Args {
+			if a == m && ai < len(h.Params) {
+				scan(h, h.Params[ai])
+			}
+		}
+	}
+	return ok
 }
